@@ -68,4 +68,46 @@ def render (es : List (Expr Fr)) : String :=
   let ps := if parts.isEmpty then "-" else ",".intercalate (parts.map fmtVS)
   s!"consts={consts} rots={rots} calcs={calcs} parts={ps}"
 
+/-! ### the lookup and trash graphs of `Evaluator::new` -/
+
+def renderGraph (consts : List Fr) (rots : List Int) (calcLines : List String) : String :=
+  let cs := ",".intercalate (consts.map fun c => toHex c.val)
+  let rs := if rots.isEmpty then "-" else ",".intercalate (rots.map toString)
+  let cl := if calcLines.isEmpty then "-" else ";".intercalate calcLines
+  s!"consts={cs} rots={rs} calcs={cl}"
+
+def compileInto (g : G Fr) (es : List (Expr Fr)) : G Fr × List VS :=
+  es.foldl (fun (acc : G Fr × List VS) e => let (g, v) := addExpr vsLe e acc.1; (g, acc.2 ++ [v])) (g, [])
+
+/-- Stand-in for a `Calculation::Horner` slot inside the list of calculations (the model's `Calc`
+has no Horner constructor: `add_expression` never emits one). It keeps the numbering of the
+intermediates that follow; it could only collide with a real calculation if an expression queried
+challenge number `4294967295`. -/
+def hornerSlot : Calc := .store (.chal 4294967295)
+
+def fmtParts (parts : List VS) : String := ",".intercalate (parts.map fmtVS)
+
+/-- `evaluation.rs: Evaluator::new`, the loop `for trash in cs.trashcans`: the constraint
+expressions compiled into a fresh graph, then `Horner(Constant(0), parts, TrashChallenge)`. -/
+def renderTrash (es : List (Expr Fr)) : String :=
+  let (g, parts) := compileInto G.init es
+  let lines := g.calcs.zipIdx.map fun (c, i) => s!"t{i}={fmtCalc c}"
+  renderGraph g.constants g.rotations (lines ++ [s!"t{g.calcs.length}=horner(c0;{fmtParts parts};trash)"])
+
+/-- `evaluation.rs: Evaluator::new`, the loop `for lookup in cs.lookups`: input expressions, their
+Horner with `theta`, table expressions (same graph: constants, rotations and calculations of the
+inputs are reused), their Horner (`add_calculation` reuses the first one when the parts are the
+same), `table + gamma`, `input + beta`, product. -/
+def renderLookup (ins tabs : List (Expr Fr)) : String :=
+  let (g1, p1) := compileInto G.init ins
+  let k1 := g1.calcs.length
+  let (g2, p2) := compileInto { g1 with calcs := g1.calcs ++ [hornerSlot] } tabs
+  let k2 := g2.calcs.length
+  let lines := g2.calcs.zipIdx.map fun (c, i) =>
+    if i = k1 then s!"t{i}=horner(c0;{fmtParts p1};theta)" else s!"t{i}={fmtCalc c}"
+  let (h2, lines, nxt) :=
+    if p2 = p1 then (k1, lines, k2) else (k2, lines ++ [s!"t{k2}=horner(c0;{fmtParts p2};theta)"], k2 + 1)
+  renderGraph g2.constants g2.rotations
+    (lines ++ [s!"t{nxt}=add(t{h2},gamma)", s!"t{nxt + 1}=add(t{k1},beta)", s!"t{nxt + 2}=mul(t{nxt + 1},t{nxt})"])
+
 end MidnightZK.C01.Graph
